@@ -29,6 +29,86 @@ type C16Case struct {
 	Conns   [][]kit.Argv `json:"conns"`
 	Drops   []int        `json:"drops"` // per connection: reconnect after this many commands (0 = never)
 	Persist bool         `json:"persist"`
+	Edge    *C16Edge     `json:"edge,omitempty"`
+}
+
+// C16Edge: after the mixed workload, rounds in which blocked clients leave their wait (timeout, CLIENT
+// UNBLOCK, CLIENT KILL, closed socket) at the same moment at which another connection pushes to the list
+// they wait for; the offset between the two events is swept over +-1.5 ms across the rounds.
+type C16Edge struct {
+	Kind      int `json:"kind"` // 1 timeout 2 CLIENT UNBLOCK 3 socket closed 4 CLIENT KILL
+	Rounds    int `json:"rounds"`
+	Waiters   int `json:"waiters"`
+	TimeoutMs int `json:"timeout_ms"`
+	Cmd       int `json:"cmd"` // 0 BLPOP 1 BRPOP two keys 2 BLMOVE 3 BLMPOP
+}
+
+var c16EdgeNames = []string{"", "timeout", "client-unblock", "socket-closed", "client-kill"}
+
+func c16EdgeRun(emu *kit.Emu, e C16Edge) {
+	pusher, ctl := emu.Dial(), emu.Dial()
+	defer pusher.Close()
+	defer ctl.Close()
+	for r := 0; r < e.Rounds; r++ {
+		off := time.Duration(float64(r)/float64(e.Rounds)*3000-1500) * time.Microsecond
+		ws := make([]*kit.Conn, e.Waiters)
+		ids := make([]string, e.Waiters)
+		for i := range ws {
+			cn, err := kit.Dial(emu.Addr)
+			if err != nil {
+				return
+			}
+			cn.Proto = 0
+			ws[i] = cn
+			if v, err := cn.Do("CLIENT", "ID"); err == nil {
+				ids[i] = strconv.FormatInt(v.I, 10)
+			}
+		}
+		to := "0"
+		if e.Kind == 1 {
+			to = strconv.FormatFloat(float64(e.TimeoutMs)/1000, 'f', -1, 64)
+		}
+		blk := [][]string{{"BLPOP", "edge", to}, {"BRPOP", "edge0", "edge", to}, {"BLMOVE", "edge", "edgedst", "LEFT", "RIGHT", to}, {"BLMPOP", to, "2", "edge", "edge0", "LEFT"}}[e.Cmd]
+		t0 := time.Now()
+		for _, cn := range ws {
+			cn.Write(kit.EncodeCmd(blk...))
+		}
+		at := t0.Add(time.Duration(e.TimeoutMs) * time.Millisecond)
+		var wg sync.WaitGroup
+		wg.Add(2)
+		go func() {
+			defer wg.Done()
+			time.Sleep(time.Until(at.Add(off)))
+			a := []string{"LPUSH", "edge"}
+			for i := 0; i < e.Waiters; i++ {
+				a = append(a, "v")
+			}
+			pusher.Do(a...)
+		}()
+		go func() {
+			defer wg.Done()
+			if e.Kind == 1 {
+				return
+			}
+			time.Sleep(time.Until(at))
+			for i, cn := range ws {
+				switch e.Kind {
+				case 2:
+					ctl.Do("CLIENT", "UNBLOCK", ids[i], []string{"TIMEOUT", "ERROR"}[i%2])
+				case 3:
+					cn.Close()
+				default:
+					ctl.Do("CLIENT", "KILL", "ID", ids[i])
+				}
+			}
+		}()
+		wg.Wait()
+		for _, cn := range ws {
+			cn.Read(300 * time.Millisecond)
+			cn.Close()
+		}
+		pusher.Do("DEL", "edge", "edgedst")
+	}
 }
 
 func c16Cmd(t *rapid.T, nconn int) []string {
@@ -82,6 +162,10 @@ func c16Gen(t *rapid.T) C16Case {
 		}
 		c.Drops = append(c.Drops, d)
 	}
+	if rapid.IntRange(0, 2).Draw(t, "edge") == 0 {
+		c.Edge = &C16Edge{Kind: rapid.IntRange(1, 4).Draw(t, "ekind"), Rounds: rapid.IntRange(10, 40).Draw(t, "erounds"), Waiters: rapid.IntRange(1, 8).Draw(t, "ewaiters"),
+			TimeoutMs: pick(t, "ems", 10, 15, 20), Cmd: rapid.IntRange(0, 3).Draw(t, "ecmd")}
+	}
 	return c
 }
 
@@ -134,6 +218,10 @@ func c16Run(c C16Case, st *kit.Stats) error {
 		}(i, cmds)
 	}
 	wg.Wait()
+	if c.Edge != nil {
+		c16EdgeRun(emu, *c.Edge)
+		st.Class("edge:" + c16EdgeNames[c.Edge.Kind])
+	}
 	if c.Persist {
 		time.Sleep(5 * time.Millisecond)
 	}
